@@ -1432,6 +1432,23 @@ def _b_dict(interp, src=None, **kw):
     return d
 
 
+def _b_sorted(interp, it, key=None, reverse=False):
+    """sorted() with a key evaluated by the interpreter; keys must be concrete (bool / int / str) - stable like CPython."""
+    items = list(interp.iterate(it))
+    if key is None:
+        return sorted(items, reverse=bool(reverse))
+    keys = []
+    for x in items:
+        kv = interp.call(key, [x], {})
+        if isinstance(kv, SV):
+            kv = interp.branch_truth(kv, "sorted.key") if z3.is_bool(kv.t) else kv
+        if not isinstance(kv, (bool, int, float, str)):
+            raise OutOfReach(f"sorted(): symbolic sort key {kv!r}")
+        keys.append(kv)
+    order = sorted(range(len(items)), key=lambda j: keys[j], reverse=bool(reverse))
+    return [items[j] for j in order]
+
+
 def _b_any(interp, it):
     for x in interp.iterate(it):
         if interp.branch_truth(x, "any"):
@@ -1479,7 +1496,7 @@ DEFAULT_BUILTINS.update({
     "enumerate": lambda i, it, start=0: list(enumerate(i.iterate(it), start)),
     "reversed": lambda i, it: list(reversed(i.iterate(it))),
     "range": lambda i, *a: list(range(*a)),
-    "sorted": lambda i, it, **k: sorted(i.iterate(it), **k),
+    "sorted": _b_sorted,
     "min": lambda i, *a: min(*a), "max": lambda i, *a: max(*a),
     "id": lambda i, v: id(v),
     "repr": lambda i, v: repr(v) if isinstance(v, (int, str, float, bool, type(None))) else SV(i.str_of(v)),
